@@ -7,7 +7,7 @@ set -u
 cd "$(dirname "$0")/.."
 P=$1; shift
 KS=${*:-1 2 3}
-SRC=/tmp/seed-$P/seeds
+SRC=/tmp/seed-$P${ROUND:+-$ROUND}/seeds
 for k in $KS; do
   [ -f "$SRC/change$k.diff" ] || { echo "$P-$k: no change$k.diff"; continue; }
   D=seeded/$P-$k
